@@ -34,6 +34,8 @@ func (db *DB) basicImport(ctx context.Context, filepath string) (err error) {
 	}()
 
 	d := json.NewDecoder(bufio.NewReader(f))
+	// Decode numbers as json.Number instead of float64 so that integers beyond 2^53 keep their value.
+	d.UseNumber()
 
 	t, err := d.Token()
 	if err != nil {
@@ -84,6 +86,14 @@ func (db *DB) basicImport(ctx context.Context, filepath string) (err error) {
 			delete(docMap, request.DocIDFieldName)
 			delete(docMap, request.NewDocIDFieldName)
 
+			for name, value := range docMap {
+				field, ok := col.Definition().GetFieldByName(name)
+				docMap[name], err = convertJSONNumbers(value, ok && isIntKind(field.Kind))
+				if err != nil {
+					return NewErrJSONDecode(err)
+				}
+			}
+
 			doc, err := client.NewDocFromMap(docMap, col.Definition())
 			if err != nil {
 				return NewErrDocFromMap(err)
@@ -113,6 +123,48 @@ func (db *DB) basicImport(ctx context.Context, filepath string) (err error) {
 	}
 
 	return nil
+}
+
+func isIntKind(kind client.FieldKind) bool {
+	return kind == client.FieldKind_NILLABLE_INT ||
+		kind == client.FieldKind_INT_ARRAY ||
+		kind == client.FieldKind_NILLABLE_INT_ARRAY
+}
+
+// convertJSONNumbers replaces every json.Number within the given decoded JSON value.
+//
+// Numbers of integer fields become int64 when they are written as an integer that fits,
+// everything else becomes float64, which is what the decoder yields without UseNumber.
+func convertJSONNumbers(value any, asInt bool) (any, error) {
+	switch v := value.(type) {
+	case json.Number:
+		if asInt {
+			if i, err := v.Int64(); err == nil {
+				return i, nil
+			}
+		}
+		return v.Float64()
+	case []any:
+		for i := range v {
+			converted, err := convertJSONNumbers(v[i], asInt)
+			if err != nil {
+				return nil, err
+			}
+			v[i] = converted
+		}
+		return v, nil
+	case map[string]any:
+		for k := range v {
+			converted, err := convertJSONNumbers(v[k], asInt)
+			if err != nil {
+				return nil, err
+			}
+			v[k] = converted
+		}
+		return v, nil
+	default:
+		return value, nil
+	}
 }
 
 func (db *DB) basicExport(ctx context.Context, config *client.BackupConfig) (err error) {
